@@ -1,0 +1,118 @@
+//! Verification hooks. Only compiled with `--cfg anything_verif`.
+//!
+//! Nothing in here changes what the crate computes: crash points abort the
+//! process at a named step when asked to through the environment, delay points
+//! yield or sleep for a pseudo-random short time, and the event log records
+//! what happened at the database boundary.
+
+use std::sync::atomic::{AtomicU64, Ordering};
+use std::sync::Mutex;
+
+/// An event observed at a hook.
+#[derive(Debug, Clone)]
+pub enum Event {
+    /// A lookup that was performed against the database.
+    Lookup {
+        /// The phrase that was searched for.
+        phrase: String,
+        /// The description of the constant that was returned (if any).
+        hit: Option<String>,
+    },
+}
+
+static EVENTS: Mutex<Vec<Event>> = Mutex::new(Vec::new());
+static COUNTERS: Mutex<Vec<(String, u64)>> = Mutex::new(Vec::new());
+static DELAY_STATE: AtomicU64 = AtomicU64::new(0);
+
+/// Record an event.
+pub fn record(event: Event) {
+    if let Ok(mut events) = EVENTS.lock() {
+        events.push(event);
+    }
+}
+
+/// Take all events recorded so far.
+pub fn take_events() -> Vec<Event> {
+    match EVENTS.lock() {
+        Ok(mut events) => std::mem::take(&mut *events),
+        Err(..) => Vec::new(),
+    }
+}
+
+fn bump(name: &str) -> u64 {
+    let mut counters = match COUNTERS.lock() {
+        Ok(counters) => counters,
+        Err(e) => e.into_inner(),
+    };
+
+    for (n, c) in counters.iter_mut() {
+        if n == name {
+            *c += 1;
+            return *c;
+        }
+    }
+
+    counters.push((name.to_owned(), 1));
+    1
+}
+
+/// A named crash point. If `ANYTHING_VERIF_CRASH` is `name` or `name@n` the
+/// process is aborted the first (or n-th) time this point is passed, after
+/// printing `CRASHPOINT name@n` to stderr. If `ANYTHING_VERIF_TRACE` is set
+/// every pass is printed as `TRACEPOINT name@n`.
+pub fn crashpoint(name: &str) {
+    let n = bump(name);
+
+    if std::env::var_os("ANYTHING_VERIF_TRACE").is_some() {
+        eprintln!("TRACEPOINT {}@{}", name, n);
+    }
+
+    let spec = match std::env::var("ANYTHING_VERIF_CRASH") {
+        Ok(spec) => spec,
+        Err(..) => return,
+    };
+
+    let (want, at) = match spec.split_once('@') {
+        Some((want, at)) => (want, at.parse::<u64>().unwrap_or(1)),
+        None => (spec.as_str(), 1),
+    };
+
+    if want == name && at == n {
+        eprintln!("CRASHPOINT {}@{}", name, n);
+        std::process::abort();
+    }
+}
+
+/// A named delay point. If `ANYTHING_VERIF_DELAY` is `seed:max_us:permille` a
+/// pseudo-random fraction (`permille` of 1000) of the passes yield and sleep
+/// for up to `max_us` microseconds.
+pub fn delay(_name: &str) {
+    let spec = match std::env::var("ANYTHING_VERIF_DELAY") {
+        Ok(spec) => spec,
+        Err(..) => return,
+    };
+
+    let mut it = spec.split(':').map(|s| s.parse::<u64>().unwrap_or(0));
+    let seed = it.next().unwrap_or(0);
+    let max_us = it.next().unwrap_or(0);
+    let permille = it.next().unwrap_or(0);
+
+    let mut x = DELAY_STATE.load(Ordering::Relaxed);
+
+    if x == 0 {
+        x = seed.wrapping_mul(0x9e3779b97f4a7c15) | 1;
+    }
+
+    x ^= x << 13;
+    x ^= x >> 7;
+    x ^= x << 17;
+    DELAY_STATE.store(x, Ordering::Relaxed);
+
+    if (x >> 20) % 1000 < permille {
+        std::thread::yield_now();
+
+        if max_us > 0 {
+            std::thread::sleep(std::time::Duration::from_micros((x >> 32) % (max_us + 1)));
+        }
+    }
+}
